@@ -5,3 +5,44 @@
 
 // owner: group a5. `super::super` is the repository module `server`.
 use super::super::*;
+
+use std::net::IpAddr;
+use std::time::{Duration, Instant};
+
+/// Number of slots of the server's rate-limit cache.
+pub fn cache_len<C>(s: &Server<C>) -> usize {
+    s.client_cache.elements.len()
+}
+/// Slot an address maps to in this server's cache (None when the cache is disabled).
+pub fn cache_index<C>(s: &Server<C>, ip: IpAddr) -> Option<usize> {
+    if s.client_cache.elements.is_empty() {
+        None
+    } else {
+        Some(s.client_cache.index(&ip))
+    }
+}
+/// Current occupant of a slot.
+pub fn cache_slot<C>(s: &Server<C>, idx: usize) -> Option<(IpAddr, Instant)> {
+    s.client_cache.elements.get(idx).and_then(|e| e.as_ref().map(|(a, t)| (*a, *t)))
+}
+
+/// The private `TimestampedCache<IpAddr>` on its own, driven with synthetic `Instant`s.
+pub struct CacheProbe(TimestampedCache<IpAddr>);
+
+impl CacheProbe {
+    pub fn new(len: usize) -> Self {
+        CacheProbe(TimestampedCache::new(len))
+    }
+    pub fn len(&self) -> usize {
+        self.0.elements.len()
+    }
+    pub fn index(&self, ip: IpAddr) -> Option<usize> {
+        if self.0.elements.is_empty() { None } else { Some(self.0.index(&ip)) }
+    }
+    pub fn is_allowed(&mut self, ip: IpAddr, at: Instant, cutoff: Duration) -> bool {
+        self.0.is_allowed(ip, at, cutoff)
+    }
+    pub fn slot(&self, idx: usize) -> Option<(IpAddr, Instant)> {
+        self.0.elements.get(idx).and_then(|e| e.as_ref().map(|(a, t)| (*a, *t)))
+    }
+}
